@@ -241,6 +241,13 @@ class Program:
                 k, v = self.resolve(mod, e.id, _depth + 1)
                 if k in ("func", "class"):
                     return (k, v)
+            if e is not None and isinstance(e, ast.Attribute) and isinstance(e.value, ast.Name):
+                # alias through a module: a = tags.a
+                k, v = self.resolve(mod, e.value.id, _depth + 1)
+                if k == "module" and v in self.modules:
+                    k2, v2 = self.resolve(self.modules[v], e.attr, _depth + 1)
+                    if k2 in ("func", "class"):
+                        return (k2, v2)
             if e is not None:
                 return ("const", (mod, e))
             return ("var", (mod, name))
@@ -408,6 +415,22 @@ class Program:
             except Exception:
                 raise NotConst("binop")
             raise NotConst("binop")
+        if isinstance(expr, ast.Compare) and len(expr.ops) == 1:
+            l = self.fold(expr.left, mod, env)
+            r = self.fold(expr.comparators[0], mod, env)
+            op = expr.ops[0]
+            try:
+                if isinstance(op, ast.In):
+                    return l in r
+                if isinstance(op, ast.NotIn):
+                    return l not in r
+                if isinstance(op, ast.Eq):
+                    return l == r
+                if isinstance(op, ast.NotEq):
+                    return l != r
+            except Exception:
+                raise NotConst("compare")
+            raise NotConst("compare")
         if isinstance(expr, ast.UnaryOp):
             v = self.fold(expr.operand, mod, env)
             if isinstance(expr.op, ast.Not):
